@@ -768,6 +768,13 @@ def chanOpenConfirm (s : State) (ch : String) (hopsOf : Option (List String))
      | none => none)
   | _ => none
 
+/-- OnTimeoutPacket, and OnAcknowledgementPacket with an error acknowledgement: the consumer of the
+    channel is stopped (again, if it already was); `none` = unknown channel, the callback fails -/
+def timeoutOrErrorAck (s : State) (ch : String) : Option State :=
+  match s.chan2c.find? (·.1 == ch) with
+  | some e => some (stopConsumer s e.2)
+  | none => none
+
 /-! ### EndBlock: CIS (id ↦ height, key pruning) then VSU (provider set, epoch: queue and send) -/
 
 structure GlobalVS where
